@@ -46,6 +46,8 @@ def slots(repo, run):
         why = "dense_output does not return (knot, CubicHermiteInterp(...))"
         if len(rets) == 1 and isinstance(rets[0].value, ast.Tuple) and len(rets[0].value.elts) == 2:
             knot, piece = rets[0].value.elts
+            while isinstance(piece, ast.Name) and piece.id in c.env:
+                piece = c.env[piece.id]
             if isinstance(piece, ast.Call) and (dotted(piece.func) or "").endswith("CubicHermiteInterp") and len(piece.args) == 6 and not piece.keywords:
                 got = [c.poly(a).canon() for a in piece.args]
                 if got != want:
@@ -322,6 +324,42 @@ def containers(repo, run):
                    text="front insertion guarded by `%s`" % src(test))
 
 
+def _loop_bindings(loop):
+    """{name: 'X[#]' | '#'} for  for i in range(len(X)) / for a, b in zip(X, Y) / for i, a in enumerate(X) / for i, (a, b) in enumerate(zip(X, Y));
+    '#' stands for the position in iteration order (0, 1, 2, ...)"""
+    it, tg = loop.iter, loop.target
+    if not isinstance(it, ast.Call):
+        return None
+    f = dotted(it.func)
+    if f == "range" and len(it.args) == 1 and isinstance(it.args[0], ast.Call) and dotted(it.args[0].func) == "len" and isinstance(tg, ast.Name):
+        return {tg.id: "#"}
+
+    def seq(target, iterable, out):
+        if isinstance(iterable, ast.Call) and dotted(iterable.func) == "zip" and isinstance(target, ast.Tuple) and len(target.elts) == len(iterable.args):
+            for e, a in zip(target.elts, iterable.args):
+                if not isinstance(e, ast.Name):
+                    return False
+                out[e.id] = "%s[#]" % src(a)
+            return True
+        if isinstance(target, ast.Name) and isinstance(iterable, (ast.Name, ast.Attribute)):
+            out[target.id] = "%s[#]" % src(iterable)
+            return True
+        return False
+    out = {}
+    if f == "enumerate" and len(it.args) == 1 and isinstance(tg, ast.Tuple) and len(tg.elts) == 2 and isinstance(tg.elts[0], ast.Name):
+        out[tg.elts[0].id] = "#"
+        return out if seq(tg.elts[1], it.args[0], out) else None
+    return out if seq(tg, it, out) else None
+
+
+def _norm_indexed(node, binds):
+    if isinstance(node, ast.Name) and node.id in binds:
+        return binds[node.id]
+    if isinstance(node, ast.Subscript) and isinstance(node.slice, ast.Name) and binds.get(node.slice.id) == "#":
+        return "%s[#]" % src(node.value)
+    return src(node)
+
+
 def evaluation_paths(repo, run):
     """DenseOutput.__call__ / grad: a scalar query is answered by piece find_interval(t) evaluated at t; an array query pairs each flattened query with
     the piece index computed for THAT query and restores the query's shape; a list of pieces is added piece by piece with its own knot."""
@@ -371,11 +409,13 @@ def evaluation_paths(repo, run):
     ok = False
     for cc in rec:
         loop = next((a for a in ancestors(cc) if isinstance(a, ast.For)), None)
-        if loop is not None and isinstance(loop.iter, ast.Call) and dotted(loop.iter.func) == "range" and src(loop.iter.args[0]) == "len(%s)" % P[1]:
-            i = src(loop.target)
-            ok = [src(a) for a in cc.args] == ["%s[%s]" % (P[1], i), "%s[%s]" % (P[2], i)]
-        if loop is not None and isinstance(loop.iter, ast.Call) and fname(loop.iter) == "zip" and [src(a) for a in loop.iter.args] == [P[1], P[2]]:
-            ok = [src(a) for a in cc.args] == [src(e) for e in loop.target.elts]
+        if loop is None or loop.orelse:
+            continue
+        binds = _loop_bindings(loop)
+        if binds is None:
+            continue
+        got = [_norm_indexed(a, binds) for a in cc.args]
+        ok = got == ["%s[#]" % P[1], "%s[#]" % P[2]] and not cc.keywords
     run.judged(rid, "add_interpolant adds a list of pieces pairwise, in order", ok=ok)
     if not ok:
         run.report("C06.8", DS, add, "a list of pieces (Richardson sub-steps) is not added pairwise (t[i], y_interp[i]) in order", text="add_interpolant list path")
